@@ -337,7 +337,7 @@ class GenWalker:
                 return base.attrs[attr]
             if base.cls:
                 found, val = self.repo.class_const(base.cls, attr)  # `removes = True` in the class body (through the MRO)
-                if found and (isinstance(val, (bool, int, str)) or val is None):
+                if found and (isinstance(val, (bool, int, str)) or val is None or (isinstance(val, tuple) and all(isinstance(x, (bool, int, str)) for x in val))):
                     return val
             if attr == "generate":
                 return _Bound(base, attr)
